@@ -102,6 +102,30 @@ def run_case(case):
                         probs.append(('density-differs:' + which, '%s %s call %d on rank %d (radial block starts at %d): max error %.3g (tol %.3g)' % (name, which, call, r, r0, err, tol)))
                     if name == 'equilibrium' and which == 'perturbed' and np.abs(got).max() != 0:
                         probs.append(('equilibrium-density-not-zero', 'perturbed density of the equilibrium is %r on rank %d' % (np.abs(got).max(), r)))
+        # the same finder applied to a second distribution function that is distributed differently (half of the world, hence
+        # another radial block on this rank): nothing a call leaves in the finder may depend on the grid of the previous call
+        if comm.Get_size() >= 2:
+            sub = comm.Split(r % 2, r)
+            f2, c2, t2 = setupCylindricalGrid(layout='v_parallel', npts=list(npts), comm=sub, eps=0.0, splineDegrees=[3, 3, 3, case['vdeg']], vMin=-6.1, **ops.GENERIC)
+            l2 = f2.getLayout('v_parallel')
+            h2 = getLayoutHandler(sub, lp, l2.nprocs[:2], eta[:3])
+            rho2 = Grid(eta[:3], [None] * 3, h2, 'v_parallel_2d', sub, dtype=dtype)
+            rI2 = np.arange(int(l2.starts[0]), int(l2.ends[0]))
+            feq2 = np.array([[ops.feq(c, eta[0][i], v) for v in eta[3]] for i in rI2])
+            gi2 = sim.global_index_arrays(l2)
+            F2 = f2.getAllData() * (1 + 0.3 * np.sin(1.0 + gi2[0] * 1.3 + gi2[1] * 0.7 + gi2[2] * 2.1 + gi2[3] * 0.9))
+            f2.getAllData()[:] = F2
+            for d_ in (dens, dens_first):
+                rho2.getAllData()[:] = poison
+                n_eval += 1
+                d_.getPerturbedRho(f2, rho2)
+                want = np.einsum('ijkl,l->ijk', F2 - feq2[:, None, None, :], w)
+                got = rho2.getAllData()
+                tol = 64 * EPS * cond * (S.d + 1) * span * max(1e-300, np.abs(F2).max() + np.abs(feq2).max())
+                err = np.abs(got.real - want).max() if not np.isnan(got.real).any() else np.inf
+                if not err <= tol:
+                    probs.append(('density-differs:perturbed:same-finder-on-a-differently-distributed-grid',
+                                  'finder reused on a grid whose radial block starts at %d (first grid: %d) on rank %d: max error %.3g (tol %.3g)' % (int(l2.starts[0]), r0, r, err, tol)))
         return probs, n_eval, r0
     try:
         res, _ = sim.run_world(grid, fn)
